@@ -62,10 +62,10 @@ const (
 
 type c56ref struct {
 	s    string
-	lax  bool              // emulate the known deviations of the package
-	trig [c56NumDev]bool   // which deviations were exercised (lax mode only)
-	val  int64             // last Integer parsed
-	disp []byte            // last Display String byte_array
+	lax  bool            // emulate the known deviations of the package
+	trig [c56NumDev]bool // which deviations were exercised (lax mode only)
+	val  int64           // last Integer parsed
+	disp []byte          // last Display String byte_array
 }
 
 func c56digit(b byte) bool   { return b >= '0' && b <= '9' }
